@@ -38,10 +38,6 @@ def const_int(ck: Checker, cls, name: str) -> Optional[int]:
 
 
 def check(ck: Checker) -> None:
-    from . import round4 as _r4
-
-    _r4.post_copy_covers_all(ck, "C07.verify")
-    _r4.check_removal_strict(ck, "C07.check")
     ck.decided = [
         "C07.check: HashFileDB.check compares hash_file(self.get(oid).path) with oid symmetrically; the mismatch edge always deletes the object and raises; the match edge protects before returning",
         "C07.localtrust: LocalHashFileDB.check trusts without hashing only across an equality between the file's permission bits and the read-only CACHE_MODE; otherwise it delegates to the hashing check with the same oid",
@@ -57,6 +53,11 @@ def check(ck: Checker) -> None:
     _check_verify(ck, "C07.verify")
     check_fetch_verify(ck, "C07.verify")
     _check_checkout(ck)
+    from . import round4 as _r4
+
+    _r4.post_copy_covers_all(ck, "C07.verify")
+    _r4.check_removal_strict(ck, "C07.check")
+
 
 
 def _check_base(ck: Checker, rule: str = "C07.check") -> None:
